@@ -54,14 +54,15 @@ def mix_seed(*parts) -> int:
 
 def key_matches(key: str, patterns) -> bool:
     """Patterns are exact keys, fnmatch patterns, or `superset:<kind>|a,b,c` which matches a key
-    `<kind>|<comma separated token set>` whose token set contains {a,b,c}; a pattern token may
+    `<kind>|<comma separated token set>` whose token set contains {a,b,c} (`<kind>` may list several
+    kinds joined by `+`: effects of one root cause); a pattern token may
     itself hold fnmatch wildcards (`D:loop.body*`) and is then satisfied by any matching key token."""
     for p in patterns:
         if p.startswith("superset:"):
             pk, _, ptoks = p[len("superset:"):].partition("|")
             kk, _, ktoks = key.partition("|")
             have = set(ktoks.split(","))
-            if pk == kk and all(t in have or (any(c in t for c in "*?[") and any(fnmatch.fnmatchcase(h, t) for h in have))
+            if kk in pk.split("+") and all(t in have or (any(c in t for c in "*?[") and any(fnmatch.fnmatchcase(h, t) for h in have))
                                 for t in ptoks.split(",") if t):
                 return True
         elif key == p or fnmatch.fnmatchcase(key, p):
